@@ -6,3 +6,5 @@ import Rp2.Props.C03
 #print axioms Rp2.C03.transfer_taxed_iff_fee
 #print axioms Rp2.C03.pipeline_each_event_once_in_full
 #print axioms Rp2.C03.income_value_and_zero_cost
+#print axioms Rp2.C03.source_taxability_is_the_models
+#print axioms Rp2.C03.source_earning_flag_is_the_models
